@@ -13,9 +13,7 @@
     The `toDir` flag inside `Kind.link` is a ghost field: `symlinkat` records what `stat(target)` says
     at creation time and NO syscall ever reads it (`stat` follows the target in the current tree).
   * PATHS.  Syscalls take ABSOLUTE keys (`FsPath`, `[]` = `/`): `Stdfs` passes the result of
-    `Stdfs::abs` everywhere except `is_dir`/`is_file`, for which `walkRaw` resolves a raw string the
-    way the kernel does (against the process cwd, `.`/`..` physically, every directory stepped through
-    must exist).
+    `Stdfs::abs` everywhere (since fix 0b4a978 also in `is_dir`/`is_file`).
   * INTERMEDIATE SYMLINKS ARE NOT FOLLOWED: a proper ancestor that is a link makes the walk fail with
     `ENOTDIR` (the real kernel would continue inside the target).  This is outside the domain of C02
     (arguments that do not pass through a link).  FINAL symlinks are followed where the syscall does.
@@ -98,51 +96,6 @@ def «exists» (t : T) (k : FsPath) : Bool := match stat t k with | .ok _ => tru
 
 /-- `Path::is_dir()` = `fs::metadata(p).map(|m| m.is_dir())` (follows) -/
 def statIsDir (t : T) (k : FsPath) : Bool := match stat t k with | .ok n => n.kind = .dir | .error _ => false
-
-/-! ### raw strings (only `Stdfs::is_dir` / `Stdfs::is_file` hand one to the kernel) -/
-
-/-- one piece between separators: `""`/`"."` stay, `".."` goes to the physical parent (`/..` = `/`),
-    a name goes to the child; the node stepped FROM must be an existing directory -/
-def rawStep (t : T) (cur : FsPath) (piece : Str) : Except Errno FsPath :=
-  if piece = [] then .ok cur
-  else match get t cur with
-    | none => .error .ENOENT
-    | some nd =>
-      if nd.kind ≠ .dir then .error .ENOTDIR
-      else if piece = ['.'] then .ok cur
-      else if piece = ['.', '.'] then .ok cur.dropLast
-      else .ok (cur ++ [piece])
-
-def rawFold (t : T) : FsPath → List Str → Except Errno FsPath
-  | cur, [] => .ok cur
-  | cur, p :: ps => match rawStep t cur p with
-    | .ok c => rawFold t c ps
-    | .error e => .error e
-
-/-- `lstat(2)` of a RAW string: the empty string is `ENOENT`; a relative string starts at the process
-    cwd (which must still exist); a trailing `/` or `/.` forces the last component to be followed and
-    to be a directory -/
-def lstatRaw (t : T) (s : Str) : Except Errno Node :=
-  if s = [] then .error .ENOENT
-  else
-    let start : Except Errno FsPath :=
-      if isRooted s then .ok []
-      else if isDir t t.cwd then .ok t.cwd else .error .ENOENT
-    match start with
-    | .error e => .error e
-    | .ok st =>
-      match rawFold t st (splitSlash s) with
-      | .error e => .error e
-      | .ok k =>
-        let last := (splitSlash s).getLast?
-        if last = some [] ∨ last = some ['.'] then
-          -- `foo/`, `foo/.`: the directory itself (through a link if need be)
-          match stat t k with
-          | .ok n => if n.kind = .dir then .ok n else .error .ENOTDIR
-          | .error e => .error e
-        else match get t k with
-          | some n => .ok n
-          | none => .error .ENOENT
 
 /-! ### directories -/
 
